@@ -175,13 +175,13 @@ def gen_spec(rng, idx):
         el.append({"kind": "other_load", "name": "load_x", "swb": 1, "rated": 400.0, "curve": [0.97]})
     spec = {"type": "electric", "name": "sys", "electric": el, "bus_ties": [[i, i + 1] for i in swbs[:-1]]}
     if kind != "electric":
-        mech, ptis, ids = plants.gen_mech_components(rng, n_lines=int(rng.choice([1, 2])), pti_swb=int(rng.choice(swbs)), force_pti=(kind == "hybrid"))
+        mech, ptis, ids = plants.gen_mech_components(rng, n_lines=int(rng.choice([1, 2, 2])), pti_swb=int(rng.choice(swbs)), force_pti=(kind == "hybrid"))
         ids_map = {old: i + 1 for i, old in enumerate(sorted(ids))}
         for c in mech:
             c["shaft_line"] = ids_map[c["shaft_line"]]
         fixed = []
         for p in ptis:
-            p2 = plants.gen_serial_spec(rng, "pti_pto", p["name"], p["swb"], p["rated"], n_stages=int(rng.choice([2, 3])), shaft_line=ids_map[p["shaft_line"]])
+            p2 = plants.gen_serial_spec(rng, "pti_pto", p["name"], int(rng.choice(swbs)), p["rated"], n_stages=int(rng.choice([2, 3])), shaft_line=ids_map[p["shaft_line"]])
             fixed.append(p2)
         if kind == "mech_elec":
             fixed = []
@@ -190,6 +190,8 @@ def gen_spec(rng, idx):
         if not any(c["kind"] == "other_load" for c in spec["electric"]):
             spec["electric"].append({"kind": "other_load", "name": "load_y", "swb": 1, "rated": 400.0, "curve": [0.97]})
         spec["mechanical"] = mech + [{"kind": "pti_pto_ref", "name": p["name"]} for p in fixed]
+    if rng.random() < (0.7 if kind == "hybrid" else 0.35):       # user-style names: "Genset 1" on every switchboard, "PTI/PTO 1" on every shaft line
+        plants.relabel(spec)
     return {"idx": idx, "kind": kind, "spec": spec}
 
 
@@ -228,13 +230,16 @@ class Wrapped:
         self.electric = system if isinstance(system, ElectricPowerSystem) else system.electric_system
         self.mechanical = getattr(system, "mechanical_system", None)
         self.by_name = {}
-        for swb in self.electric.switchboards.values():
-            for c in swb.components:
-                self.by_name[c.name] = c
+        # the component FEEMS calls `label` on switchboard / shaft line `node` (names repeat across nodes)
+        for c in spec.get("electric", []):
+            swb = self.electric.switchboards[c["swb"]]
+            self.by_name[c["name"]] = next(x for x in swb.components if x.name == plants.fname(c))
         if self.mechanical is not None:
-            for sl in self.mechanical.shaft_line:
-                for c in sl.components:
-                    self.by_name.setdefault(c.name, c)
+            lines = {int(sl.id): sl for sl in self.mechanical.shaft_line}
+            for c in spec.get("mechanical", []):
+                if c["kind"] == "pti_pto_ref":
+                    continue
+                self.by_name[c["name"]] = next(x for x in lines[c["shaft_line"]].components if x.name == plants.fname(c))
 
 
 def run_case(ctx, case, model=True):
@@ -491,15 +496,16 @@ def j_mcomp(c, sp=None):
 
 
 def sys_json(system, kind, spec=None):
-    by_name = {}
+    e_key, m_key = {}, {}          # (FEEMS name, node) -> the case's component (names repeat across nodes)
     if spec is not None:
-        by_name = {c["name"]: c for c in spec.get("electric", []) + spec.get("mechanical", [])}
+        e_key = {(plants.fname(c), c["swb"]): c for c in spec.get("electric", [])}
+        m_key = {(plants.fname(c), c["shaft_line"]): c for c in spec.get("mechanical", []) if c["kind"] != "pti_pto_ref"}
     es = system if isinstance(system, ElectricPowerSystem) else system.electric_system
-    swbs = [[int(i), [j_ecomp(c, by_name.get(c.name)) for c in sorted(s.components, key=lambda x: x.name)]] for i, s in sorted(es.switchboards.items())]
+    swbs = [[int(i), [j_ecomp(c, e_key.get((c.name, int(i)))) for c in sorted(s.components, key=lambda x: x.name)]] for i, s in sorted(es.switchboards.items())]
     lines = []
     ms = getattr(system, "mechanical_system", None)
     if ms is not None:
-        lines = [[int(sl.id), [j_mcomp(c, by_name.get(c.name)) for c in sorted(sl.components, key=lambda x: x.name)]] for sl in ms.shaft_line]
+        lines = [[int(sl.id), [j_mcomp(c, m_key.get((c.name, int(sl.id)))) for c in sorted(sl.components, key=lambda x: x.name)]] for sl in ms.shaft_line]
     return {"name": "sys", "kind": {"electric": 1, "mech_elec": 0, "hybrid": 2}[kind], "swbs": swbs, "lines": lines}
 
 
@@ -582,6 +588,12 @@ def jdiff(a, b, path=""):
 
 def lean_correspondence(ctx, case, plant, m1, s2, where):
     kind, spec = case["kind"], case["spec"]
+    pti_labels = [plants.fname(c) for c in spec["electric"] if c["kind"] == "pti_pto"]
+    if len(set(pti_labels)) < len(pti_labels):
+        # the model refers to a shaft line's PTI/PTO by name (the code by object / uid): plants whose PTI/PTOs share a name are outside
+        # the model's class; the round trip itself is still judged on the implementation (structure, second pass, behaviour)
+        ctx.count("lean_correspondence_skipped", "pti-pto-names-shared")
+        return
     sys0 = sys_json(plant.system, kind, spec)             # the original, with single values as values
     ctx.count("lean_correspondence_cases")
     ctx.count("single_value_curves_in_original", inc=json.dumps(sys0).count('"value"'))
